@@ -128,8 +128,8 @@ theorem copy_ok {c : Circuit} {name : Name} {w v : Val} (hc : WF c) (hw : Consis
     rw [hval _ (has_of_mem hq)]
     exact hw q hq t hty b hb
 
-theorem MView.complete (V : MView c0 c1 sp ep m) (h0 : WF c0) (h1 : WF c1)
-    (hsp : sp.Nodup) (hep : ep.Nodup) (hne : ep ≠ [])
+theorem MView.complete' (V : MView c0 c1 sp ep m) (h0 : WF c0) (h1 : WF c1)
+    (hsp : sp.Nodup) (hep : ep.Nodup)
     (hin0 : ∀ s ∈ sp, s ∈ c0.inputs) (hin1 : ∀ s ∈ sp, s ∈ c1.inputs)
     (hnf0 : ∀ n ∈ c0.inputs, c0.fanin n = []) (hnf1 : ∀ n ∈ c1.inputs, c1.fanin n = [])
     (hep0 : ∀ e ∈ ep, c0.has e = true ∧ c1.has e = true)
@@ -157,7 +157,7 @@ theorem MView.complete (V : MView c0 c1 sp ep m) (h0 : WF c0) (h1 : WF c1)
       apply List.map_congr_left
       intro e he
       exact V.mval_dif v0 v1 he
-    rw [e, gateFn_satTy ep hne] at hb
+    rw [e, gateFn_satTy' ep] at hb
     injection hb with hb
     rw [V.mval_sat]
     exact hb
@@ -172,6 +172,16 @@ theorem MView.complete (V : MView c0 c1 sp ep m) (h0 : WF c0) (h1 : WF c1)
     injection hb with hb
     rw [V.mval_dif v0 v1 he]
     exact hb
+
+/-- (old signature, kept for the users that have `ep ≠ []` at hand) -/
+theorem MView.complete (V : MView c0 c1 sp ep m) (h0 : WF c0) (h1 : WF c1)
+    (hsp : sp.Nodup) (hep : ep.Nodup) (hne : ep ≠ [])
+    (hin0 : ∀ s ∈ sp, s ∈ c0.inputs) (hin1 : ∀ s ∈ sp, s ∈ c1.inputs)
+    (hnf0 : ∀ n ∈ c0.inputs, c0.fanin n = []) (hnf1 : ∀ n ∈ c1.inputs, c1.fanin n = [])
+    (hep0 : ∀ e ∈ ep, c0.has e = true ∧ c1.has e = true)
+    (v0 v1 : Val) (hv0 : Consistent c0 v0) (hv1 : Consistent c1 v1) (hag : ∀ s ∈ sp, v0 s = v1 s) :
+    Consistent m (mval c0 c1 sp ep v0 v1) :=
+  V.complete' h0 h1 hsp hep hin0 hin1 hnf0 hnf1 hep0 v0 v1 hv0 hv1 hag
 
 end view
 
